@@ -890,33 +890,29 @@ where
         //    NlriStatus::InConvergence,
         //    provenance
         //);
+        // RFC 4271 section 4.3: a prefix listed both as withdrawn and in the
+        // NLRI is to be treated as announced, so the withdrawals go first.
         let context = FreshRouteContext::new(
             bgp_msg.clone(),
-            RouteStatus::Active,
+            RouteStatus::Withdrawn,
             provenance,
         );
 
-        /*
-        payloads.extend(
-            announcements.into_iter().map(|rws|{
-                //mk_payload(rws, received, context.clone())
-            Payload::with_received(
-                rws,
-                ctx.clone().into(),
-                None,
-                received
-            )
-            })
-        );
-        */
+        payloads.extend(rr_unreach.into_iter().map(|rr| {
+            //mk_payload(wds, received, context.clone())
+            update_report_msg.inc_valid_withdrawals();
+            Payload::with_received(rr, context.clone().into(), None, received)
+        }));
+
+        let context = FreshRouteContext {
+            status: RouteStatus::Active,
+            ..context
+        };
 
         if rr_reach.len() > 0 {
             //update_report_msg.inc_valid_announcements();
             update_report_msg.n_new_prefixes = rr_reach.len();
         }
-        //if rr_unreach.len() > 0 {
-        //    update_report_msg.inc_valid_withdrawals();
-        //}
 
         payloads.extend(
             //rws.into_iter().map(|rws| mk_payload(rws, received, context.clone()))
@@ -930,37 +926,6 @@ where
                 )
             }),
         );
-
-        /*
-        let context = FreshRouteContext{
-            nlri_status: NlriStatus::Withdrawn,
-            ..context
-        };
-        */
-        let context = FreshRouteContext {
-            status: RouteStatus::Withdrawn,
-            ..context
-        };
-
-        /*
-        payloads.extend(
-            withdrawals.into_iter().map(|rws|{
-                //mk_payload(rws, received, context.clone())
-            Payload::with_received(
-                rws,
-                ctx.clone().into(),
-                None,
-                received
-            )
-            })
-        );
-        */
-
-        payloads.extend(rr_unreach.into_iter().map(|rr| {
-            //mk_payload(wds, received, context.clone())
-            update_report_msg.inc_valid_withdrawals();
-            Payload::with_received(rr, context.clone().into(), None, received)
-        }));
 
         Ok((payloads, update_report_msg))
 
